@@ -209,7 +209,12 @@ def monEvent (id : String) (a : DAcc) (m : Mon) (toks : List String) : DAcc × M
     let (st', n1) := trackStream m.x m.st e
     let (sp', n2) := predStream m.x by_ m.sp e
     let dead := match e with | .poll .panic => true | .panic => true | _ => false
-    (applyNotes id pre (applyNotes id pre a n1) n2, { m with st := st', sp := sp', active := m.active && !dead })
+    -- C03 (stream form): a stream that was not interrupted ends only after every function was yielded
+    let n3 : List Note := match e with
+      | .poll .none => if m.sp.yieldedAtIntr.isNone && !by_ then
+          [.prop "C03" (e.text ++ " stream ended before every function was yielded") (m.sp.yielded.length == m.x.c.n)] else []
+      | _ => []
+    (applyNotes id pre (applyNotes id pre (applyNotes id pre a n1) n2) n3, { m with st := st', sp := sp', active := m.active && !dead })
   else
     let (t', n1) := trackFut m.x m.t e
     -- sessions with a mid-poll signal (`open:…:intr`): the lazy monitor may not have replayed an
@@ -270,6 +275,8 @@ def checkCase (lines : Array String) : Array String := Id.run do
   let mut nEvents := 0
   let mut lightCase := false
   let mut sessCoop := false
+  let mut sessShared := false
+  let mut carriedIM : Option IM := none
   for l in lines.toList.drop 1 do
     let t := toksOf l
     match t with
@@ -446,10 +453,17 @@ def checkCase (lines : Array String) : Array String := Id.run do
     | "session" :: rest =>
       inSession := true; started := false; mons := #[]; runCfgs := #[]; nSessions := nSessions + 1
       sessCoop := (kv rest "coop") == some "1"
+      sessShared := (kv rest "shared") == some "1"
       a := { a with ctx := if (kv rest "k") == some "2" then "pair" else if nSessions > 1 then "hist" else "first" }
     | "run" :: _ :: rest => runCfgs := runCfgs.push (parseRunCfg rest)
     | "endsession" :: _ =>
       inSession := false
+      -- a caller-owned InterruptibilityState handed to the next run with `reborrow()` keeps its
+      -- received flag, its poll counter and whatever still sits in its channel
+      if sessShared then
+        match mons[0]? with
+        | some m => carriedIM := some (if m.isStream then m.st.ss.im else m.t.s.im)
+        | none => pure ()
       a := { a with ctx := "build" }
     | "ev" :: r :: rest =>
       if inSession then
@@ -464,6 +478,18 @@ def checkCase (lines : Array String) : Array String := Id.run do
                        control := hasSub rc.api "_control", interruptible := hasSub rc.api "interruptible",
                        coop := sessCoop },
                 isStream := rc.isStream, t := { s := init c }, st := { ss := sinit c } })
+            if sessShared then
+              match carriedIM with
+              | some im0 =>
+                let im1 : IM := { sent := im0.sent, recv := im0.recv, cnt := im0.cnt }
+                let pending := im0.sent || im0.recv
+                mons := mons.map (fun m =>
+                  let exact := match m.x.c.strat with | .finish => true | .pollN 0 => true | _ => false
+                  { m with t := { m.t with s := { m.t.s with im := im1 } },
+                           st := { ss := { m.st.ss with im := im1 } },
+                           p := if pending then { m.p with intrAt := some 0, intrPre := true, intrQuiescent := exact } else m.p,
+                           sp := if pending then { m.sp with yieldedAtIntr := some 0, intrPre := exact } else m.sp })
+              | none => pure ()
           let ri := r.toNat?.getD 0
           nEvents := nEvents + 1
           match mons[ri]? with
